@@ -6,7 +6,7 @@ from ..core import Prop, Stream, cfg_prelude, run_workers_parallel, split_chunks
 from ..translate import CMP, TranslateError, const, find_class, find_func, one, parse_file, walk_find
 
 CFG_FIELDS = [("d_stale_handler", "D21"), ("d_no_alias", "D23"), ("d_dup_set", "D26"), ("d_alias_abort", "D120"),
-              ("d_start_order", "D121"), ("d_pending_zombie", "D122"), ("d_limit_kw", "D123"), ("d_rt_owner", "D124")]
+              ("d_start_order", "D121"), ("d_pending_zombie", "D122"), ("d_limit_kw", "D123"), ("d_rt_owner", "D124"), ("d_stack_rollback", "D125"), ("d_interleave", "D127"), ("d_spurious_remove", "D126")]
 
 
 # ------------------------------------------------------------------------------------------------
@@ -218,8 +218,8 @@ def _decl(st):
 
 
 def _q_stmt(st):
-    if st["s"] in ("def", "defrt"):
-        ctor = "SDef" if st["s"] == "def" else "SDefRt"
+    if st["s"] in ("def", "defrt", "defst"):
+        ctor = {"def": "SDef", "defrt": "SDefRt", "defst": "SDefSt"}[st["s"]]
         return f"({ctor} {q.N(st['fn'])} {q.lst(q.N(k) for k in _decl(st))} {SRD[st.get('sr')]})"
     return f"(SDel {q.N(st['fn'])})"
 
@@ -271,7 +271,7 @@ def _mentioned_keys(case):
         bodies += list(op.get("files", {}).values())
     for b in bodies:
         for st in b:
-            if st["s"] in ("def", "defrt"):
+            if st["s"] in ("def", "defrt", "defst"):
                 ks.update(_decl(st))
     return sorted(ks)
 
@@ -315,6 +315,9 @@ class _Gen:
         bound.add(f)
         sr = rng.choice([None, None, None, "none", "optional", "only"])
         kind = "defrt" if (live and rng.random() < 0.25) else "def"
+        if self.profile != "plain" and rng.random() < 0.15:   # several @service decorators stacked on one function
+            pool = list(range(1, self.nkeys + 2)) + [100 + i for i in range(self.nfn)]
+            return {"s": "defst", "fn": f, "names": rng.sample(pool, rng.choice([2, 2, 3])), "sr": sr}
         return {"s": kind, "fn": f, "names": self.names(f), "sr": sr}
 
     def body(self, bound, live):
@@ -362,7 +365,7 @@ class _Gen:
         for c, b in self.files.items():
             bd = set()
             for st in b:
-                (bd.add if st["s"] in ("def", "defrt") else bd.discard)(st["fn"])
+                (bd.add if st["s"] in ("def", "defrt", "defst") else bd.discard)(st["fn"])
             self.bound[c] = bd
         return {"op": "reload_all", "files": files, "data": self.data()}
 
@@ -418,6 +421,10 @@ def directed_cases():
         case({"0": []}, [{"op": "exec", "ctx": 0, "body": [rt(0, None)], **d}, {"op": "exec", "ctx": 0, "body": [rt(0, None)], **d}, {"op": "unload", "ctx": 0, **d}])
         case({"0": [], "1": []}, [{"op": "exec", "ctx": 0, "body": [rt(0, [1])], **d}, {"op": "exec", "ctx": 1, "body": [rt(0, [1])], **d},
                                    {"op": "exec", "ctx": 0, "body": [_def(1, [1])], **d}, {"op": "exec", "ctx": 0, "body": [{"s": "del", "fn": 0}], **d}])
+        # several @service decorators stacked on one function; one of the names owned elsewhere
+        stk = lambda f, names, sr=None: {"s": "defst", "fn": f, "names": names, "sr": sr}
+        case({"0": [stk(0, [1, 2])]}, [{"op": "exec", "ctx": 0, "body": [stk(0, [2, 3], "optional")], **d}, {"op": "exec", "ctx": 0, "body": [{"s": "del", "fn": 0}], **d}])
+        case({"0": [_def(0, [2])], "1": [stk(0, [1, 2, 3])]}, [{"op": "unload", "ctx": 0, **d}, {"op": "load", "ctx": 1, "body": [stk(0, [1, 2, 3])], **d}, {"op": "unload", "ctx": 1, **d}])
         # reload with changed content, unload
         case({"0": [_def(0, [1]), _def(1, [2])]}, [{"op": "load", "ctx": 0, "body": [_def(1, [2]), _def(2, [3])], **d}, {"op": "unload", "ctx": 0, **d}])
     return out
@@ -680,12 +687,131 @@ class OverlapStream(Stream):
         return {"case": case, "observed": obs}
 
 
+# ------------------------------------------------------------------------------------------------
+# stream 4: an operation arriving in the middle of the start-ups of a (re)loaded context
+# ------------------------------------------------------------------------------------------------
+class MidStream(Stream):
+    name = "mid"
+    rule = ("default subsystem: ordinary operations, then a (re)load of a context whose functions carry 1-3 stacked @service "
+            "decorators, with the start-ups of its decorator managers held after their first turn (each registered its first name "
+            "and waits in `await State.get_service_params()`), then one operation executed while they wait - unload or reload of that "
+            "context, (re)load/unload of another context, a deletion elsewhere - then the release; probed after each of the three; the "
+            "Spec judges the final state against the plain sequence; non-trivial = a manager was waiting with names still to register")
+    requires = "From PV Require Import Life.Services Life.ServicesSpec Life.ServicesMid Life.ServicesCheck."
+    case_type = "mcase"
+    check_model = "mcase_model_ok pv_cfg"
+    check_spec = "mcase_spec_ok"
+    attrib = "mcase_attrib pv_cfg"
+    explain = "mcase_explain pv_cfg"
+    shard_size = 60
+
+    def budget(self, tier):
+        return 80 if tier == "quick" else 800
+
+    @staticmethod
+    def _case(init, held_ctx, held_body, intr):
+        c = {"legacy": False, "init": init, "init_data": {},
+             "ops": [{"op": "load", "ctx": held_ctx, "body": held_body, "hold": True, "data": {}}, dict(intr, data={}), {"op": "release", "data": {}}]}
+        c["keys"] = _mentioned_keys(c)
+        return c
+
+    def generate(self, ctx, budget, focus=None):
+        rng = ctx.rng
+        stk = lambda f, names, sr=None: {"s": "defst", "fn": f, "names": names, "sr": sr}
+        cases = [
+            # the context is unloaded / reloaded while its two-name function has registered only the first name
+            self._case({}, 1, [stk(0, [1, 2])], {"op": "unload", "ctx": 1}),
+            self._case({"0": [_def(0, [2])]}, 1, [stk(0, [1, 2])], {"op": "unload", "ctx": 1}),
+            self._case({"0": [_def(0, [3])]}, 1, [stk(0, [1, 2]), _def(1, [3])], {"op": "load", "ctx": 1, "body": [_def(0, [1])]}),
+            self._case({"0": [_def(0, [3])]}, 1, [stk(0, [1, 2, 3])], {"op": "load", "ctx": 0, "body": [_def(0, [2])]}),
+            self._case({"0": [_def(0, [3])]}, 1, [stk(0, [1, 2])], {"op": "unload", "ctx": 0}),
+        ]
+        while len(cases) < budget:
+            nk = rng.choice([2, 3, 3, 4])
+            init = {}
+            for c in rng.sample([0, 2], rng.choice([0, 1, 1, 2])):
+                init[str(c)] = [_def(f, [rng.randint(1, nk)], rng.choice([None, None, "optional"])) for f in rng.sample(range(3), rng.choice([1, 2]))]
+            held = []
+            for f in rng.sample(range(3), rng.choice([1, 2, 2, 3])):
+                n = rng.choice([1, 2, 2, 3])
+                if n == 1:
+                    held.append(_def(f, [rng.randint(1, nk)], rng.choice([None, "optional"])))
+                else:
+                    held.append(stk(f, rng.sample(range(1, nk + 1), min(n, nk)), rng.choice([None, "optional"])))
+            others = sorted(int(c) for c in init)
+            r = rng.random()
+            if r < 0.35:
+                intr = {"op": "unload", "ctx": 1}
+            elif r < 0.6:
+                intr = {"op": "load", "ctx": 1, "body": [_def(rng.randrange(3), [rng.randint(1, nk)])]}
+            elif r < 0.8 or not others:
+                c2 = rng.choice([0, 2])
+                intr = {"op": "load", "ctx": c2, "body": [_def(rng.randrange(3), [rng.randint(1, nk)])]}
+            else:
+                intr = {"op": "unload", "ctx": rng.choice(others)}
+            cases.append(self._case(init, 1, held, intr))
+        return cases
+
+    def run_impl(self, ctx, cases):
+        chunks = split_chunks(cases, 8)
+        res = run_workers_parallel(ctx, "vh.workers.c12_services", [{"op": "life", "cases": c} for c in chunks], timeout=1200)
+        out = [o for r in res for o in r]
+        for o in out:
+            if "error" in o:
+                raise RuntimeError("C12 mid worker failed on a case: " + o["error"] + "\n" + o.get("tb", ""))
+        return out
+
+    def to_coq(self, case, obs):
+        steps = obs["steps"]
+        pre = f"[OReloadAll {_q_files(case.get('init', {}))} {q.lst(q.N(g) for g in steps[0].get('oracle', []))}]"
+        held, intr = case["ops"][0], case["ops"][1]
+        k = intr["op"]
+        orc = q.lst(q.N(g) for g in steps[2].get("oracle", []))
+        if k == "load":
+            it = f"(OLoad {q.N(intr['ctx'])} {_q_body(intr['body'])} {orc})"
+        elif k == "unload":
+            it = f"(OUnload {q.N(intr['ctx'])})"
+        else:
+            raise ValueError(k)
+        obs_t = q.lst(q.lst(_q_kobs(o) for o in st["obs"]) for st in steps[1:4])
+        return ("{| mc_keys := %s; mc_pre := %s; mc_ctx := %s; mc_body := %s; mc_oracle := %s; mc_intr := %s; mc_obs := %s |}" % (
+            q.lst(q.N(x) for x in case["keys"]), pre, q.N(held["ctx"]), _q_body(held["body"]),
+            q.lst(q.N(g) for g in steps[1].get("oracle", [])), it, obs_t))
+
+    def prelude(self, ctx, findings, witness_terms):
+        # switches whose witnesses belong to the life stream are not measured here: on iff the finding is still open
+        from ..core import load_findings
+
+        status = {f["id"]: f.get("status", "") for f in load_findings("C12")}
+        lines, fields = [], []
+        for field, fid in CFG_FIELDS:
+            if fid in witness_terms and status.get(fid) == "open":
+                lines.append(f"Definition pv_w_{fid} := {witness_terms[fid]}.")
+                fields.append(f"{field} := negb (mcase_spec_ok pv_w_{fid})")
+            else:
+                fields.append(f"{field} := {q.boolean(status.get(fid) == 'open' and fid not in ('D126',))}")
+        lines.append("Definition pv_cfg := {| " + "; ".join(fields) + " |}.")
+        return "\n".join(lines)
+
+    def nontrivial(self, case, obs):
+        return any(st["s"] == "defst" for st in case["ops"][0]["body"])
+
+    def kind(self, case, obs):
+        intr = case["ops"][1]
+        same = intr.get("ctx") == case["ops"][0]["ctx"]
+        return f"{intr['op']}-{'same' if same else 'other'}ctx/{len(case['ops'][0]['body'])}fn"
+
+    def describe(self, case, obs):
+        return {"init": case.get("init"), "held_load": case["ops"][0], "interruption": case["ops"][1],
+                "after_held_interrupt_release": [[{"has": o["has"], "cnt": o["cnt"], "gen": o["r0"].get("gen")} for o in st["obs"]] for st in obs["steps"][1:4]]}
+
+
 class C12(Prop):
     id = "C12"
     title = "A @service exists exactly while declared and calls the current definition"
     coq_targets = ["Properties/C12.vo"]
     property_file = "Properties/C12.v"
-    streams = [LifeStream(), OutStream(), OverlapStream()]
+    streams = [LifeStream(), OutStream(), OverlapStream(), MidStream()]
     trusted_base = [
         "modelled, not verified: Function.service_register/service_remove (Life/Services.v register/remove, constants from "
         "Gen/ServiceConsts.v), the service part of EvalFunc.trigger_init/trigger_stop, EvalFuncVar.__del__, ast_functiondef's "
